@@ -40,6 +40,8 @@ import (
 	"strconv"
 	"strings"
 	"text/template/parse"
+
+	"gtverif/internal/srcset"
 )
 
 func die(format string, a ...any) {
@@ -354,6 +356,177 @@ func (l *lin) control(kind string, pipe *parse.PipeNode, body, els *parse.ListNo
 		l.opens = l.opens[:len(l.opens)-1]
 		l.buf.WriteString("\n}\n")
 	}
+}
+
+// ---------------------------------------------------------------- source facts of the package genum/gen
+
+// templateIdents collects every field / method name the template selects on its data
+func templateIdents(n parse.Node, out map[string]bool) {
+	switch x := n.(type) {
+	case *parse.ListNode:
+		if x == nil {
+			return
+		}
+		for _, c := range x.Nodes {
+			templateIdents(c, out)
+		}
+	case *parse.ActionNode:
+		templateIdents(x.Pipe, out)
+	case *parse.IfNode:
+		templateIdents(x.Pipe, out)
+		templateIdents(x.List, out)
+		templateIdents(x.ElseList, out)
+	case *parse.RangeNode:
+		templateIdents(x.Pipe, out)
+		templateIdents(x.List, out)
+		templateIdents(x.ElseList, out)
+	case *parse.WithNode:
+		templateIdents(x.Pipe, out)
+		templateIdents(x.List, out)
+		templateIdents(x.ElseList, out)
+	case *parse.PipeNode:
+		if x == nil {
+			return
+		}
+		for _, c := range x.Cmds {
+			for _, a := range c.Args {
+				templateIdents(a, out)
+			}
+		}
+	case *parse.FieldNode:
+		for _, id := range x.Ident {
+			out[id] = true
+		}
+	case *parse.VariableNode:
+		for _, id := range x.Ident[1:] {
+			out[id] = true
+		}
+	case *parse.ChainNode:
+		templateIdents(x.Node, out)
+		for _, id := range x.Field {
+			out[id] = true
+		}
+	case *parse.IdentifierNode:
+		out["func:"+x.Ident] = true
+	}
+}
+
+func glist(xs []string) string {
+	q := make([]string, len(xs))
+	for i, x := range xs {
+		q[i] = gstr(x)
+	}
+	return "[" + strings.Join(q, "; ") + "]"
+}
+
+// srcFacts reads the package genum/gen the way the compiler selects its files and reports what the ties
+// assume about it: which template file is embedded into which variable, how the template is constructed
+// (function map!), who writes to those variables, init functions, every package-level variable with its
+// writers (memo tables, caches), files excluded by build constraints, further template files in the
+// directory, and the methods of the package the template calls on its data.
+func srcFacts(repo string, root *parse.ListNode) string {
+	dir := filepath.Join(repo, "genum", "gen")
+	pk, err := srcset.Load(dir, "verif")
+	if err != nil {
+		die("%v", err)
+	}
+	var embeds, vars, inits, tmplFiles, users []string
+	construct := "?"
+	for i, f := range pk.Files {
+		for _, d := range f.Decls {
+			switch x := d.(type) {
+			case *ast.GenDecl:
+				if x.Tok != token.VAR {
+					continue
+				}
+				for _, sp := range x.Specs {
+					vs := sp.(*ast.ValueSpec)
+					doc := x.Doc
+					if vs.Doc != nil {
+						doc = vs.Doc
+					}
+					for _, n := range vs.Names {
+						if n.Name == "_" {
+							continue
+						}
+						if doc != nil {
+							for _, c := range doc.List {
+								if strings.HasPrefix(c.Text, "//go:embed ") {
+									embeds = append(embeds, n.Name+" <- "+strings.TrimSpace(strings.TrimPrefix(c.Text, "//go:embed ")))
+								}
+							}
+						}
+						w := pk.WritesTo(n.Name)
+						vars = append(vars, n.Name+" written by ["+strings.Join(w, " ")+"]")
+						if n.Name == "enumTemplate" && len(vs.Values) == 1 {
+							var b bytes.Buffer
+							printer.Fprint(&b, pk.Fset, vs.Values[0])
+							construct = strings.Join(strings.Fields(b.String()), " ")
+						}
+					}
+				}
+			case *ast.FuncDecl:
+				if x.Name.Name == "init" && x.Recv == nil {
+					inits = append(inits, pk.Names[i])
+				}
+				if x.Body != nil {
+					uses := false
+					ast.Inspect(x.Body, func(n ast.Node) bool {
+						if id, ok := n.(*ast.Ident); ok && id.Name == "enumTemplate" {
+							uses = true
+						}
+						return true
+					})
+					if uses {
+						users = append(users, x.Name.Name)
+					}
+				}
+			}
+		}
+	}
+	ents, _ := os.ReadDir(dir)
+	for _, e := range ents {
+		if strings.HasSuffix(e.Name(), ".gotmpl") || strings.HasSuffix(e.Name(), ".tmpl") {
+			tmplFiles = append(tmplFiles, e.Name())
+		}
+	}
+	// methods of the package the template selects on its data, with the receivers that declare them
+	ids := map[string]bool{}
+	templateIdents(root, ids)
+	var names []string
+	for id := range ids {
+		names = append(names, id)
+	}
+	sort.Strings(names)
+	var methods []string
+	for _, id := range names {
+		if strings.HasPrefix(id, "func:") {
+			methods = append(methods, id)
+			continue
+		}
+		var recvs []string
+		for _, f := range pk.Files {
+			for _, d := range f.Decls {
+				if fd, ok := d.(*ast.FuncDecl); ok && fd.Recv != nil && fd.Name.Name == id {
+					t := fd.Recv.List[0].Type
+					if st, ok := t.(*ast.StarExpr); ok {
+						t = st.X
+					}
+					recvs = append(recvs, selName(t))
+				}
+			}
+		}
+		if len(recvs) > 0 {
+			sort.Strings(recvs)
+			methods = append(methods, strings.Join(recvs, ",")+"."+id)
+		}
+	}
+	sort.Strings(embeds)
+	sort.Strings(vars)
+	sort.Strings(users)
+	return "{| sf_embeds := " + glist(embeds) + ";\n     sf_construct := " + gstr(construct) + ";\n     sf_template_users := " + glist(users) +
+		";\n     sf_vars := " + glist(vars) + ";\n     sf_inits := " + glist(inits) + ";\n     sf_excluded := " + glist(pk.Excluded) +
+		";\n     sf_template_files := " + glist(tmplFiles) + ";\n     sf_template_methods := " + glist(methods) + " |}"
 }
 
 // ---------------------------------------------------------------- classification of pipelines
@@ -1514,6 +1687,7 @@ func main() {
 		get("string").body, get("isvalid").body, get("accessor").body,
 		get("parsestring").gates, get("parsegeneric").gates, get("values").gates, get("stringvalues").gates, get("string").gates, get("isvalid").gates,
 		get("accessor").gates)
+	fmt.Fprintf(&b, "\nDefinition gen_srcfacts : srcfacts :=\n  %s.\n", srcFacts(*repo, t.Root))
 	if err := os.WriteFile(*out, []byte(b.String()), 0o644); err != nil {
 		die("%v", err)
 	}
